@@ -14,12 +14,14 @@ import (
 	"go.dedis.ch/kyber/v4"
 	"go.dedis.ch/kyber/v4/encrypt/ecies"
 	"go.dedis.ch/kyber/v4/encrypt/ibe"
+	"go.dedis.ch/kyber/v4/group/p256"
 	"go.dedis.ch/kyber/v4/pairing"
 	"go.dedis.ch/kyber/v4/pairing/bls12381/circl"
 	"go.dedis.ch/kyber/v4/pairing/bls12381/gnark"
 	"go.dedis.ch/kyber/v4/pairing/bls12381/kilic"
 	"go.dedis.ch/kyber/v4/sign/anon"
 	"go.dedis.ch/kyber/v4/util/key"
+	"verifharness/internal/codec/refmodel"
 	"verifharness/internal/core"
 )
 
@@ -68,6 +70,7 @@ type encConfig struct {
 	Limit    int  // explicit length limit of the scheme (0: none)
 	Struct   bool // ciphertext is a structure of fields (IBE), not one byte string
 	NoPairs  bool // configuration takes part only in behaviours with at most one alteration (cost)
+	Sweep    int  // additional honest round trips (fresh encryptions) of the untouched / right-key behaviour
 	// Encrypt returns the ciphertext split into fields.
 	Encrypt func(msg []byte) (ctext, error)
 	// Decrypt gets its own copy; keyRel "right" or "wrong" (variant selects which wrong key).
@@ -82,9 +85,40 @@ type encConfig struct {
 
 const tagLen = 16
 
+// encSuites are the suites ECIES and the anonymous-set scheme run over: the generic ones plus a residue group
+// with a 70-bit modulus and cofactor 44 (refmodel-certified parameters, the library's own QrSuite.SetParams):
+// one element in 44 has a zero top byte there, so encodings with leading zeros are met all the time.
+func encSuites() map[string]fullSuite {
+	gs := genericSuites()
+	for _, rp := range refmodel.ExtraResidueGroups() {
+		if rp.Name == "qr72" {
+			q := new(p256.QrSuite)
+			q.SetParams(rp.P, rp.Q, rp.R, rp.G)
+			gs["qr72"] = q
+		}
+	}
+	return gs
+}
+
+// sweepFor is the number of additional honest round trips (fresh encryptions of a hash-size message, right
+// key) per configuration: events that depend on the random ephemeral value - an encoding with a leading zero
+// byte happens once in ~195 encryptions on QR512, once in 44 on qr72, once in 256 on the curves - are only
+// met by volume, ECIES draws its ephemeral key from crypto/rand.
+func sweepFor(suite string) int {
+	switch {
+	case suite == "qr512":
+		return 750 // x 2 ECIES configurations, x 4 anon configurations: >= 1500 per scheme
+	case suite == "qr72":
+		return 200
+	case strings.HasPrefix(suite, "edvt"):
+		return 20
+	}
+	return 200
+}
+
 func eciesConfigs(seed int64) []*encConfig {
 	var out []*encConfig
-	gs := genericSuites()
+	gs := encSuites()
 	var names []string
 	for n := range gs {
 		names = append(names, n)
@@ -102,7 +136,7 @@ func eciesConfigs(seed int64) []*encConfig {
 			x, X := keyPair(s, st)
 			w, _ := keyPair(s, st)
 			l := s.PointLen()
-			out = append(out, &encConfig{Scheme: "ecies", Name: "ecies:" + n + "/" + hv, KeyName: "ecies:" + n, HashSize: 32,
+			out = append(out, &encConfig{Scheme: "ecies", Name: "ecies:" + n + "/" + hv, KeyName: "ecies:" + n, HashSize: 32, Sweep: sweepFor(n),
 				Encrypt: func(msg []byte) (ctext, error) {
 					ct, err := ecies.Encrypt(s, X, msg, hf)
 					if err != nil {
@@ -280,7 +314,7 @@ func (k keySuite) NewKey(st cipher.Stream) kyber.Scalar {
 
 func anonConfigs(seed int64, thorough bool) []*encConfig {
 	var out []*encConfig
-	gs := genericSuites()
+	gs := encSuites()
 	var names []string
 	for n := range gs {
 		names = append(names, n)
@@ -309,7 +343,7 @@ func anonConfigs(seed int64, thorough bool) []*encConfig {
 				n, s, size, mine, set, privs := n, s, size, mine, set, privs
 				pl, sl := s.PointLen(), s.ScalarLen()
 				out = append(out, &encConfig{Scheme: "anon", Name: fmt.Sprintf("anon:%s/n=%d/i=%d", n, size, mine), KeyName: "anon:" + n, HashSize: 32,
-					NoPairs: size != 1 && size != 3,
+					NoPairs: size != 1 && size != 3, Sweep: sweepFor(n) / 2,
 					Encrypt: func(msg []byte) (ctext, error) {
 						ct, err := anon.Encrypt(s, msg, set)
 						if err != nil {
@@ -405,10 +439,15 @@ func applyAlt(c *encConfig, ct ctext, a alt, every bool) []ctext {
 			return nil
 		}
 		switch a.Kind {
-		case "flipFirst":
-			flipAt([]int{0})
-		case "flipLast":
-			flipAt([]int{len(f.B) - 1})
+		case "flipFirst", "flipLast": // every bit of the byte, in every tier: format / header / sign bits live here
+			every8 := every
+			every = true
+			if a.Kind == "flipFirst" {
+				flipAt([]int{0})
+			} else {
+				flipAt([]int{len(f.B) - 1})
+			}
+			every = every8
 		default:
 			if every && len(f.B) <= 160 { // every single-bit flip of the field
 				var all []int
@@ -609,7 +648,11 @@ func EncryptReplay(cfg Config, res *core.Result) error {
 		c := cfgs[i]
 		n := 0
 		for bi, b := range byScheme[c.Scheme] {
-			for inst := 0; inst < insts; inst++ {
+			k := insts
+			if len(b) == 2 && b[0].Len == "hash" && b[1].Act == "Decrypt" && b[1].Key == "right" {
+				k += c.Sweep // honest round-trip sweep: same abstract case, many ephemeral values
+			}
+			for inst := 0; inst < k; inst++ {
 				if encReplayOne(cfg, res, c, cache, b, bi, inst, thorough) {
 					n++
 				}
